@@ -6,7 +6,16 @@
                                        | H <id> OOB <idx> | H <id> FULL | H <id> NOTERM
    N <id> <check|nocheck> <obs>       obs = string over P (progress) F (stalled, output full) E (stalled, input empty)
                                       B (stalled, both) X (stalled, neither)
-                                      -> N <id> <counter after each call, comma separated>[,ERRF|,ERRE] *)
+                                      -> N <id> <counter after each call, comma separated>[,ERRF|,ERRE]
+   P <id> <raw|rle|huf1|huf4> <blockSizeMax> <dstCapacity> <srcSize> <lhSize> <litSize> <litCSize> <streaming 0|1>
+                                      -> P <id> OK loc=<0|1|2> ptr=<dst|extra|src>+<off> end=<region>+<off> used=<n> n=<litSize>
+                                       | P <id> ERR <LitGtBlock|FourStreams|CSizeGtSrc|DstTooSmall|RawGtSrc>
+   G <id> <windowSize> <frameContentSize> <blockSizeMax> <r1,r2,...>   block sizes in order
+                                      -> G <id> size=<ZSTD_decodingBufferSize_internal> starts=<outStart after each block, -1 = refused>
+   UH <id> <srchex>                   R's reader of a Huffman tree description (table log limit 12 = HUF_TABLELOG_MAX)
+                                      -> UH <id> OK used=<n> log=<n> w=<weight,...>  |  UH <id> ERR <class>/<site>
+   UN <id> <maxSymbolValue> <srchex>  R's reader of an FSE table description (accuracy log limit 15 = FSE_TABLELOG_ABSOLUTE_MAX)
+                                      -> UN <id> OK used=<n> log=<n> c=<count,...>   |  UN <id> ERR <class>/<site> *)
 open C03model
 
 let rec pos_of_int i = if i = 1 then XH else if i land 1 = 0 then XO (pos_of_int (i lsr 1)) else XI (pos_of_int (i lsr 1))
@@ -14,10 +23,19 @@ let n_of_int i = if i = 0 then N0 else Npos (pos_of_int i)
 let rec int_of_pos = function XH -> 1 | XO p -> 2 * int_of_pos p | XI p -> 2 * int_of_pos p + 1
 let int_of_n = function N0 -> 0 | Npos p -> int_of_pos p
 
+let z_of_int i = if i = 0 then Z0 else if i > 0 then Zpos (pos_of_int i) else Zneg (pos_of_int (- i))
+let int_of_z = function Z0 -> 0 | Zpos p -> int_of_pos p | Zneg p -> - (int_of_pos p)
+
 let hex_of_bytes l =
   match l with [] -> "-" | _ ->
   let b = Buffer.create 1024 in
   List.iter (fun x -> Buffer.add_string b (Printf.sprintf "%02x" (int_of_n x))) l; Buffer.contents b
+
+let bytes_of_hex s =
+  if s = "-" then [] else
+  let n = String.length s / 2 in
+  let rec go i acc = if i < 0 then acc else go (i - 1) (n_of_int (int_of_string ("0x" ^ String.sub s (2 * i) 2)) :: acc) in
+  go (n - 1) []
 
 let class_name = function
   | Etrunc -> "trunc" | Eformat -> "format" | Esafety -> "safety" | Eintegrity -> "integrity"
@@ -91,6 +109,44 @@ let watchdog id mode obs =
   go N0 0;
   Printf.printf "N %s %s\n" id (if Buffer.length out = 0 then "-" else Buffer.contents out)
 
+let placement id kind a =
+  let k = match kind with "raw" -> KRaw | "rle" -> KRle | "huf1" -> KHuf true | _ -> KHuf false in
+  match a with
+  | [b; cap; src; lh; n; cs; st] ->
+    let zi s = z_of_int (int_of_string s) in
+    (match place k (zi b) (zi cap) (zi src) (zi lh) (zi n) (zi cs) (st = "1") with
+     | LErr e ->
+       Printf.printf "P %s ERR %s\n" id
+         (match e with ELitGtBlock -> "LitGtBlock" | EFourStreams -> "FourStreams" | ECSizeGtSrc -> "CSizeGtSrc"
+                     | EDstTooSmall -> "DstTooSmall" | ERawGtSrc -> "RawGtSrc")
+     | LOk (lb, used) ->
+       let reg = match lb.lb_region with RDst -> "dst" | RExtra -> "extra" | RSrc -> "src" in
+       let loc = match lb.lb_loc with NotInDst -> 0 | InDst -> 1 | Split -> 2 in
+       Printf.printf "P %s OK loc=%d ptr=%s+%d end=%s+%d used=%d n=%s\n" id loc reg (int_of_z lb.lb_start) reg (int_of_z lb.lb_end)
+         (int_of_z used) n)
+  | _ -> Printf.printf "P %s BADARGS\n" id
+
+let ringtrace id w fcs b rs =
+  let zi s = z_of_int (int_of_string s) in
+  let size = buf_size (zi w) (zi fcs) (zi b) in
+  let rs = if rs = "-" then [] else List.map zi (String.split_on_char ',' rs) in
+  let st = ring_trace size (zi fcs) (zi b) ring0 rs in
+  Printf.printf "G %s size=%d starts=%s\n" id (int_of_z size) (String.concat "," (List.map (fun z -> string_of_int (int_of_z z)) st))
+
+let unit_huf id hx =
+  match read_huf_weights (n_of_int 12) (bytes_of_hex hx) with
+  | Ok ((ws, log), used) ->
+    Printf.printf "UH %s OK used=%d log=%d w=%s\n" id (int_of_n used) (int_of_n log)
+      (String.concat "" (List.map (fun w -> string_of_int (int_of_n w) ^ ",") ws))
+  | Err (c, s) -> Printf.printf "UH %s ERR %s/%d\n" id (class_name c) (int_of_n s)
+
+let unit_ncount id msv hx =
+  match read_ncount (n_of_int (int_of_string msv)) (n_of_int 15) (bytes_of_hex hx) with
+  | Ok ((log, counts), used) ->
+    Printf.printf "UN %s OK used=%d log=%d c=%s\n" id (int_of_n used) (int_of_n log)
+      (String.concat "" (List.map (fun z -> string_of_int (int_of_z z) ^ ",") counts))
+  | Err (c, s) -> Printf.printf "UN %s ERR %s/%d\n" id (class_name c) (int_of_n s)
+
 let () =
   try
     while true do
@@ -99,6 +155,10 @@ let () =
        | ["W"] -> witnesses ()
        | ["H"; id; mode; ops] -> hashset id mode ops
        | ["N"; id; mode; obs] -> watchdog id mode obs
+       | "P" :: id :: kind :: rest -> placement id kind rest
+       | ["G"; id; w; fcs; b; rs] -> ringtrace id w fcs b rs
+       | ["UH"; id; hx] -> unit_huf id hx
+       | ["UN"; id; msv; hx] -> unit_ncount id msv hx
        | _ -> if line <> "" then Printf.printf "? BADLINE\n");
       flush stdout
     done
